@@ -14,8 +14,14 @@ X.509 library makes (`cfg.pubPre`, `cfg.pubPost`) and every starting state satis
 Hypotheses (all explicit): `BumpOK cfg` — the key manager hands out a name that differs from the current
 one and is not empty; `Inv cfg s` — the invariant (PrimaryOK + the root key is live and matches the
 stored root certificate + name hygiene); `Fresh cfg req s` — the object the new certificate is written
-to is not the manifest, the root certificate or the primary's certificate.  Runs start from
-`s.reload`: a fresh authority instance (no cached manifest) and an empty call log.
+to is not the manifest object or the root certificate object.  The object holding the PRIMARY's
+certificate (a serial override equal to the primary's serial with the same common name — finding D22)
+is no longer excluded: gcsca.upload (after its "fix:" commit) refuses an object that the manifest
+records for another key version before any storage call, whatever --overwrite says, and the model
+follows (`heldByOther`); the pre-fix upload is kept as `rotateKeyNoGuard` with the witness
+`C10_old_upload_clobbers_primary`.  The theorems that assert SUCCESS of a rotation need, in addition,
+that the request is not refused in that way (`Unclaimed`); `C10_collision_refused` is the other half.
+Runs start from `s.reload`: a fresh authority instance (no cached manifest) and an empty call log.
 -/
 namespace GceTcb.CA
 
@@ -51,21 +57,23 @@ theorem C10_destroy_after_commit (cfg : Cfg) (req : Req) (sc : Nat → Fault) (s
   | err s' => rw [hr] at this; exact this.1.2
   | crash s' => rw [hr] at this; exact this.1.2
 
-/-- a fault-free rotation with overwrite allowed succeeds from any good state -/
+/-- a fault-free rotation with overwrite allowed succeeds from any good state, unless its certificate
+    would go to an object that another key version holds -/
 theorem C10_fault_free_succeeds (cfg : Cfg) (req : Req) (s : St) (how : cfg.overwrite = true)
-    (hb : BumpOK cfg) (hi : Inv cfg s) (hf : Fresh cfg req s) :
+    (hb : BumpOK cfg) (hi : Inv cfg s) (hf : Fresh cfg req s) (hu : Unclaimed cfg req s) :
     ∃ k s', rotateKey cfg req noFault s.reload = .ok k s' ∧ Inv cfg s'.reload ∧
       primaryOf cfg s' = k ∧ k = cfg.bump (primaryOf cfg s) := by
   have := rotate_run_facts cfg req noFault s hb hi hf
   cases hr : rotateKey cfg req noFault s.reload with
   | ok k s' =>
     rw [hr] at this
-    exact ⟨k, s', rfl, (Inv_reload cfg s').mpr this.1, this.2.2.1, this.2.2.2⟩
+    exact ⟨k, s', rfl, (Inv_reload cfg s').mpr this.1, this.2.2.1, this.2.2.2.1⟩
   | err s' =>
     rw [hr] at this
-    rcases this.2 with h | h
+    rcases this.2 with h | h | h
     · exact absurd noFault_noFault h
     · rw [how] at h; cases h
+    · exact absurd h (not_claimed_of_unclaimed hu)
   | crash s' =>
     rw [hr] at this
     exact absurd noFault_noFault this.2
@@ -76,31 +84,59 @@ theorem C10_fault_free_succeeds (cfg : Cfg) (req : Req) (s : St) (how : cfg.over
     the key it returns is recorded as primary, and the invariant holds again. -/
 theorem C10_retry_succeeds (cfg : Cfg) (req req' : Req) (sc : Nat → Fault) (s : St)
     (hb : BumpOK cfg) (hi : Inv cfg s) (hf : Fresh cfg req s)
-    (hf' : Fresh cfg.allowOverwrite req' (rotateKey cfg req sc s.reload).state.reload) :
+    (hf' : Fresh cfg.allowOverwrite req' (rotateKey cfg req sc s.reload).state.reload)
+    (hu' : Unclaimed cfg.allowOverwrite req' (rotateKey cfg req sc s.reload).state.reload) :
     ∃ k s', rotateKey cfg.allowOverwrite req' noFault (rotateKey cfg req sc s.reload).state.reload = .ok k s' ∧
       Inv cfg s'.reload ∧ primaryOf cfg s' = k ∧
       k = cfg.bump (primaryOf cfg (rotateKey cfg req sc s.reload).state.reload) := by
   have h1 := C10_primary_live cfg req sc s hb hi hf
   have h1' := (Inv_allowOverwrite cfg _).mpr h1
-  obtain ⟨k, s', hr, hinv, hp, hk⟩ := C10_fault_free_succeeds cfg.allowOverwrite req' _ rfl hb h1' hf'
+  obtain ⟨k, s', hr, hinv, hp, hk⟩ := C10_fault_free_succeeds cfg.allowOverwrite req' _ rfl hb h1' hf' hu'
   refine ⟨k, s', ?_, (Inv_allowOverwrite cfg _).mp hinv, hp, hk⟩
   have : (rotateKey cfg req sc s.reload).state.reload.reload = (rotateKey cfg req sc s.reload).state.reload := rfl
   rw [this] at hr
   exact hr
 
-/-- `Fresh` only looks at the stored manifest: a failed attempt that did not change the stored manifest
-    leaves the same request admissible for the retry (its leftover object is overwritten). -/
-theorem C10_retry_same_request (cfg : Cfg) (req : Req) (s s1 : St) (hf : Fresh cfg req s)
+/-- `Fresh` and `Unclaimed` only look at the stored manifest: a failed attempt that did not change the stored
+    manifest leaves the same request admissible for the retry (its leftover object is overwritten). -/
+theorem C10_retry_same_request (cfg : Cfg) (req : Req) (s s1 : St) (hf : Fresh cfg req s) (hu : Unclaimed cfg req s)
     (hsame : lookup s1.store manifestName = lookup s.store manifestName) :
-    Fresh cfg.allowOverwrite req s1 := by
-  unfold Fresh Cfg.allowOverwrite at *
+    Fresh cfg.allowOverwrite req s1 ∧ Unclaimed cfg.allowOverwrite req s1 := by
+  unfold Fresh Unclaimed Cfg.allowOverwrite at *
   cases hca : cfg.ca with
   | memca => simp
   | gcsca =>
-    simp only [hca] at hf ⊢
-    intro m hm
-    rw [hsame] at hm
-    exact hf m hm
+    simp only [hca] at hf hu ⊢
+    constructor
+    · intro m hm
+      rw [hsame] at hm
+      exact hf m hm
+    · intro m hm
+      rw [hsame] at hm
+      exact hu m hm
+
+/-- **A colliding request is refused, atomically** (the input class of finding D22, now inside the
+    statement).  When the stored manifest records the object the new certificate would go to for a key
+    version other than the new one — in particular the object holding the PRIMARY's certificate — no
+    script lets the rotation return normally, `--overwrite` or not; the state that survives satisfies the
+    invariant (this is `C10_primary_live`; restated for the reader), so the recorded primary is still the
+    old key, live and certified. -/
+theorem C10_collision_refused (cfg : Cfg) (req : Req) (sc : Nat → Fault) (s : St)
+    (hb : BumpOK cfg) (hi : Inv cfg s) (hf : Fresh cfg req s) (hc : Claimed cfg req s) :
+    (∀ k s', rotateKey cfg req sc s.reload ≠ .ok k s') ∧
+    Inv cfg (rotateKey cfg req sc s.reload).state.reload := by
+  refine ⟨?_, C10_primary_live cfg req sc s hb hi hf⟩
+  intro k s' hr
+  have := rotate_run_facts cfg req sc s hb hi hf
+  rw [hr] at this
+  exact this.2.2.2.2 hc
+
+/-- the primary's own certificate object is such an object: a request whose target is the entry of the
+    recorded primary is `Claimed` -/
+theorem C10_primary_object_claimed (cfg : Cfg) (req : Req) (s : St) (hca : cfg.ca = .gcsca) (hb : BumpOK cfg)
+    (m : Manifest) (hm : lookup s.store manifestName = some (.manifest m))
+    (ht : lookup m.entries m.signing = some (target cfg req m)) : Claimed cfg req s :=
+  ⟨hca, m, hm, heldByOther_of_lookup ht (Ne.symm (hb.1 _))⟩
 
 /-! ### the order matters: the rotation as it was before the fix -/
 
@@ -122,13 +158,64 @@ theorem C10_old_order_breaks :
 theorem C10_old_order_breaks_gcsca :
     Inv (demoCfg .gcsca) demoG ∧ Fresh (demoCfg .gcsca) ⟨"sig", 3⟩ demoG ∧ BumpOK (demoCfg .gcsca) ∧
     ¬ PrimaryOK (demoCfg .gcsca) (rotateKeyOld (demoCfg .gcsca) ⟨"sig", 3⟩ (failAt 22) demoG.reload).state.reload := by
-  refine ⟨demoG_inv, demoG_fresh, demoBump_ok .gcsca, ?_⟩
+  refine ⟨demoG_inv, demoG_fresh _ (by decide) (by decide), demoBump_ok .gcsca, ?_⟩
   intro h
   have := primaryOKb_of _ _ h
   revert this
   decide
 
+/-! ### the refusal matters: gcsca.upload as it was before its fix -/
+
+def demoCfgOw : Cfg := (demoCfg .gcsca).allowOverwrite
+
+/-- **The old upload clobbers the primary's certificate** (finding D22): with `--overwrite`, a request
+    whose common name and serial are the current primary's (⟨"sigcn", 2⟩ in `demoG`) satisfies every
+    hypothesis of `C10_primary_live` as it is stated now; on gcsca.upload WITHOUT the refusal ONE crash
+    (position 19: Close of the certificate object, i.e. before the manifest write) — or one failed call
+    (position 20: opening the manifest's writer) — leaves the stored manifest naming the old key "sk" as
+    primary while the object its entry points to certifies the new key: `PrimaryOK` fails.  On the
+    repaired upload the same run is refused before any storage call and `PrimaryOK` holds. -/
+theorem C10_old_upload_clobbers_primary :
+    Inv demoCfgOw demoG ∧ Fresh demoCfgOw ⟨"sigcn", 2⟩ demoG ∧ BumpOK demoCfgOw ∧ Claimed demoCfgOw ⟨"sigcn", 2⟩ demoG ∧
+    ¬ PrimaryOK demoCfgOw (rotateKeyNoGuard demoCfgOw ⟨"sigcn", 2⟩ (crashAt 19) demoG.reload).state.reload ∧
+    ¬ PrimaryOK demoCfgOw (rotateKeyNoGuard demoCfgOw ⟨"sigcn", 2⟩ (failAt 20) demoG.reload).state.reload ∧
+    (rotateKey demoCfgOw ⟨"sigcn", 2⟩ (crashAt 19) demoG.reload).tag = "err" ∧
+    PrimaryOK demoCfgOw (rotateKey demoCfgOw ⟨"sigcn", 2⟩ (crashAt 19) demoG.reload).state.reload := by
+  have hinv : Inv demoCfgOw demoG := (Inv_allowOverwrite _ _).mpr demoG_inv
+  have hfr : Fresh demoCfgOw ⟨"sigcn", 2⟩ demoG := by
+    intro m hm
+    rw [demoG_manifest hm]
+    exact ⟨by decide, by decide⟩
+  have hbo : BumpOK demoCfgOw := demoBump_ok .gcsca
+  refine ⟨hinv, hfr, hbo, ?_, ?_, ?_, by decide, ?_⟩
+  · exact ⟨rfl, _, (by decide : lookup demoG.store manifestName = some (.manifest
+      ⟨[("root", "certs/rootcn-1.crt"), ("sk", "certs/sigcn-2.crt")], "root", "sk"⟩)), by decide⟩
+  · intro h
+    have := primaryOKb_of _ _ h
+    revert this
+    decide
+  · intro h
+    have := primaryOKb_of _ _ h
+    revert this
+    decide
+  · exact (C10_primary_live demoCfgOw ⟨"sigcn", 2⟩ (crashAt 19) demoG hbo hinv hfr).primaryOK
+
 /-! ### non-vacuity -/
+
+/-- Non-vacuity of `C10_fault_free_succeeds` / `C10_retry_succeeds`: the usual request (next serial) is not
+    claimed in `demoG`. -/
+example : Unclaimed (demoCfg .gcsca) ⟨"sig", 3⟩ demoG := demoG_unclaimed
+
+/-- Non-vacuity of `C10_collision_refused`: the colliding request of `C10_old_upload_clobbers_primary`,
+    fault-free and with overwrite allowed, ends in an error after 16 calls (the last one is Finalize: no
+    storage call was made), both keys live, the store unchanged, and the usual retry then succeeds. -/
+example :
+    let r := rotateKey demoCfgOw ⟨"sigcn", 2⟩ noFault demoG.reload
+    let r2 := rotateKey demoCfgOw ⟨"sig", 3⟩ noFault r.state.reload
+    r.tag = "err" ∧ r.state.log.length = 16 ∧ r.state.store = demoG.store ∧
+    lookup r.state.keys "sk" = some 1 ∧ primaryOKb demoCfgOw r.state.reload = true ∧
+    r2.tag = "ok" ∧ primaryOf demoCfgOw r2.state = "sk_n" ∧ primaryOKb demoCfgOw r2.state.reload = true := by
+  decide
 
 /-- Non-vacuity of `C10_primary_live` / `C10_destroy_after_commit`: the hypotheses hold for `demoG`
     (`demoG_inv`, `demoG_fresh`, `demoBump_ok`), and the fixed rotation under the same single fault that
@@ -183,7 +270,9 @@ and is not empty) and the clause `broot` of `Inv` (the manager never hands out t
 longer assumed — they follow from the naming scheme `<cryptoKey>/cryptoKeyVersions/<count+1>` and the
 hygiene `KHyg` of the key service (no usable key carries a number the cryptoKey has not handed out), which
 is part of `InvKms` and is PRESERVED by every run (`C10_kms_primary_live`); see `C10_kms_names_fresh`.
-`Fresh` stays (as `FreshKms`), `cfg.ca = .gcsca` restricts to the shipped authority. -/
+`Fresh` (two clauses: not the manifest, not the root certificate object) stays as `FreshKms`; the success
+theorems need `UnclaimedKms` (the target object is not recorded for another key version), and
+`C10_kms_collision_refused` is the other half; `cfg.ca = .gcsca` restricts to the shipped authority. -/
 
 /-- **The naming scheme discharges `BumpOK` / `broot`.**  In a state satisfying the invariant the name the
     next CreateCryptoKeyVersion hands out is not the name of a usable key — in particular neither the
@@ -276,12 +365,13 @@ theorem C10_kms_success_retires_old (cfg : Cfg) (env : KmsEnv) (req : Req) (sc :
     lookup s'.kdead (primaryOf cfg s) = some .scheduled := by
   have := rotateKms_run_facts cfg env req sc s hca hi hf
   rw [hr] at this
-  exact ⟨this.2.2.2.2.1, this.2.2.2.1, this.2.2.2.2.2.1, this.2.2.2.2.2.2⟩
+  exact ⟨this.2.2.2.2.1, this.2.2.2.1, this.2.2.2.2.2.1, this.2.2.2.2.2.2.1⟩
 
 /-- a fault-free rotation with overwrite allowed in a benign environment (any generation countdown)
     succeeds from any good state and returns the next version name -/
 theorem C10_kms_fault_free_succeeds (cfg : Cfg) (env : KmsEnv) (req : Req) (s : St) (how : cfg.overwrite = true)
-    (hben : env.benign = true) (hca : cfg.ca = .gcsca) (hi : InvKms cfg env s) (hf : FreshKms cfg env req s) :
+    (hben : env.benign = true) (hca : cfg.ca = .gcsca) (hi : InvKms cfg env s) (hf : FreshKms cfg env req s)
+    (hu : UnclaimedKms cfg env req s) :
     ∃ k s', rotateKeyKms cfg env req noFault s.reload = .ok k s' ∧ InvKms cfg env s'.reload ∧
       primaryOf cfg s' = k ∧ k = nextName env s := by
   have := rotateKms_run_facts cfg env req noFault s hca hi hf
@@ -291,9 +381,10 @@ theorem C10_kms_fault_free_succeeds (cfg : Cfg) (env : KmsEnv) (req : Req) (s : 
     exact ⟨k, s', rfl, (InvKms_reload cfg env s').mpr this.1, this.2.2.2.1, this.2.2.2.2.1⟩
   | err s' =>
     rw [hr] at this
-    rcases this.2 with h | h | h
+    rcases this.2 with h | h | h | h
     · exact absurd noFault_noFault h
     · rw [how] at h; cases h
+    · exact absurd h (not_claimed_of_unclaimed hu)
     · rw [hben] at h; cases h
   | crash s' =>
     rw [hr] at this
@@ -306,7 +397,8 @@ theorem C10_kms_fault_free_succeeds (cfg : Cfg) (env : KmsEnv) (req : Req) (s : 
 theorem C10_kms_retry_succeeds (cfg : Cfg) (env env' : KmsEnv) (req req' : Req) (sc : Nat → Fault) (s : St)
     (hpar : env'.parent = env.parent) (hben : env'.benign = true)
     (hca : cfg.ca = .gcsca) (hi : InvKms cfg env s) (hf : FreshKms cfg env req s)
-    (hf' : FreshKms cfg.allowOverwrite env' req' (rotateKeyKms cfg env req sc s.reload).state.reload) :
+    (hf' : FreshKms cfg.allowOverwrite env' req' (rotateKeyKms cfg env req sc s.reload).state.reload)
+    (hu' : UnclaimedKms cfg.allowOverwrite env' req' (rotateKeyKms cfg env req sc s.reload).state.reload) :
     ∃ k s', rotateKeyKms cfg.allowOverwrite env' req' noFault (rotateKeyKms cfg env req sc s.reload).state.reload = .ok k s' ∧
       InvKms cfg env' s'.reload ∧ primaryOf cfg s' = k ∧
       k = nextName env' (rotateKeyKms cfg env req sc s.reload).state.reload := by
@@ -316,30 +408,57 @@ theorem C10_kms_retry_succeeds (cfg : Cfg) (env env' : KmsEnv) (req req' : Req) 
     intro n hn
     have := h1.2 n hn
     rw [hpar]; exact this
-  obtain ⟨k, s', hr, hinv, hp, hk⟩ := C10_kms_fault_free_succeeds cfg.allowOverwrite env' req' _ rfl hben hca h1' hf'
+  obtain ⟨k, s', hr, hinv, hp, hk⟩ := C10_kms_fault_free_succeeds cfg.allowOverwrite env' req' _ rfl hben hca h1' hf' hu'
   refine ⟨k, s', ?_, (InvKms_allowOverwrite cfg env' _).mp hinv, hp, hk⟩
   have : (rotateKeyKms cfg env req sc s.reload).state.reload.reload = (rotateKeyKms cfg env req sc s.reload).state.reload := rfl
   rw [this] at hr
   exact hr
 
-/-- `FreshKms` in the usual situation: the stored manifest does not list the next version name (Cloud KMS has
-    never handed it out), so the certificate goes to `<certDir><cn>-<serial>.crt`, and that object is not
-    one the durable state depends on (with the CLI's default serial it is new or a leftover). -/
+/-- **A colliding request is refused, atomically, on the Cloud KMS stack.** -/
+theorem C10_kms_collision_refused (cfg : Cfg) (env : KmsEnv) (req : Req) (sc : Nat → Fault) (s : St)
+    (hca : cfg.ca = .gcsca) (hi : InvKms cfg env s) (hf : FreshKms cfg env req s) (hc : ClaimedKms cfg env req s) :
+    (∀ k s', rotateKeyKms cfg env req sc s.reload ≠ .ok k s') ∧
+    InvKms cfg env (rotateKeyKms cfg env req sc s.reload).state.reload := by
+  refine ⟨?_, C10_kms_primary_live cfg env req sc s hca hi hf⟩
+  intro k s' hr
+  have := rotateKms_run_facts cfg env req sc s hca hi hf
+  rw [hr] at this
+  exact this.2.2.2.2.2.2.2 hc
+
+/-- `FreshKms` / `UnclaimedKms` in the usual situation: the stored manifest does not list the next version
+    name (Cloud KMS has never handed it out), so the certificate goes to `<certDir><cn>-<serial>.crt`; that
+    object must not be the manifest or the root certificate object (`FreshKms`), and for the rotation to
+    succeed no entry of the manifest may name it (`UnclaimedKms`; with the CLI's default serial it is new
+    or a leftover). -/
 theorem C10_kms_fresh_of_unlisted (cfg : Cfg) (env : KmsEnv) (req : Req) (s : St) (hca : cfg.ca = .gcsca)
     (h : ∀ m, lookup s.store manifestName = some (.manifest m) →
       lookup m.entries (nextName env s) = none ∧ objName cfg req ≠ manifestName ∧ objName cfg req ≠ cfg.rootPath ∧
-      ∀ p, lookup m.entries m.signing = some p → objName cfg req ≠ p) :
-    FreshKms cfg env req s := by
-  unfold FreshKms Fresh
+      ∀ e ∈ m.entries, e.2 ≠ objName cfg req) :
+    FreshKms cfg env req s ∧ UnclaimedKms cfg env req s := by
+  unfold FreshKms UnclaimedKms Fresh Unclaimed
   rw [show (cfg.withNew (nextName env s)).ca = CAKind.gcsca from hca]
-  intro m hm
-  obtain ⟨h1, h2, h3, h4⟩ := h m hm
-  have ht : target (cfg.withNew (nextName env s)) req m = objName cfg req := by
+  have ht : ∀ m, lookup m.entries (nextName env s) = none → target (cfg.withNew (nextName env s)) req m = objName cfg req := by
+    intro m h1
     unfold target
     show (lookup m.entries (nextName env s)).getD _ = _
     rw [h1]; rfl
-  rw [ht]
-  exact ⟨h2, h3, h4⟩
+  constructor
+  · intro m hm
+    obtain ⟨h1, h2, h3, _⟩ := h m hm
+    rw [ht m h1]
+    exact ⟨h2, h3⟩
+  · intro m hm
+    obtain ⟨h1, _, _, h4⟩ := h m hm
+    unfold claimed
+    rw [ht m h1]
+    unfold heldByOther
+    cases hany : m.entries.any fun e => e.2 == objName cfg req && e.1 != (cfg.withNew (nextName env s)).bump m.signing with
+    | false => rfl
+    | true =>
+      rw [List.any_eq_true] at hany
+      obtain ⟨e, he, hc⟩ := hany
+      simp only [Bool.and_eq_true, beq_iff_eq] at hc
+      exact absurd hc.1 (h4 e he)
 
 /-! ### the order matters on this stack too -/
 
@@ -381,7 +500,8 @@ theorem demoK_inv : InvKms (demoCfg .gcsca) demoEnv demoK := by
       simp at hl
     simp [lookup, h1, h2]
 
-theorem demoK_fresh : FreshKms (demoCfg .gcsca) demoEnv ⟨"sig", 3⟩ demoK := by
+theorem demoK_fresh_unclaimed :
+    FreshKms (demoCfg .gcsca) demoEnv ⟨"sig", 3⟩ demoK ∧ UnclaimedKms (demoCfg .gcsca) demoEnv ⟨"sig", 3⟩ demoK := by
   refine C10_kms_fresh_of_unlisted _ _ _ _ rfl ?_
   intro m hm
   have : m = ⟨[("root", "certs/rootcn-1.crt"), ("sk/cryptoKeyVersions/1", "certs/sigcn-2.crt")], "root", "sk/cryptoKeyVersions/1"⟩ := by
@@ -393,15 +513,11 @@ theorem demoK_fresh : FreshKms (demoCfg .gcsca) demoEnv ⟨"sig", 3⟩ demoK := 
     exact hm.symm
   subst this
   refine ⟨by decide, by decide, by decide, ?_⟩
-  intro p hp
-  have : p = "certs/sigcn-2.crt" := by
-    have h : lookup [("root", "certs/rootcn-1.crt"), ("sk/cryptoKeyVersions/1", "certs/sigcn-2.crt")] "sk/cryptoKeyVersions/1" = some "certs/sigcn-2.crt" := by decide
-    simp only at hp
-    rw [h] at hp
-    injection hp with hp
-    exact hp.symm
-  subst this
-  decide
+  intro e he
+  simp only [List.mem_cons, List.mem_nil_iff, or_false] at he
+  rcases he with he | he <;> (rw [he]; decide)
+
+theorem demoK_fresh : FreshKms (demoCfg .gcsca) demoEnv ⟨"sig", 3⟩ demoK := demoK_fresh_unclaimed.1
 
 /-- **Destroying before Finalize breaks the invariant on the Cloud KMS stack**: with the destroy request
     moved in front of Finalize, ONE failed storage call (position 27: Close of the manifest object) leaves
